@@ -66,7 +66,14 @@ EXPLANATION = (
     'tolerance test (np.isclose / math.isclose) inside an update is an atomic condition of its own that the exact test implies, '
     'so a tolerance in the place of the reference\'s `a == 0` is a different function on an open set of counts; (D5.result.no-bypass) no return bypasses the iteration under a '
     'tolerance / ordering test on the counts; (D6.no-hidden-state) the estimator functions keep no state outside the '
-    'call (no global/nonlocal, no store into a non-local object, no memoisation). Optimality against every '
+    'call (no global/nonlocal, no store into a non-local object, no memoisation); (D1.sweep-assert-implied) every assertion inside '
+    'an update body is implied, in exact arithmetic, by the invariants of the sweep - counts and cells of X non-negative, each row '
+    'sum = the cell of the pair + a non-negative remainder - for every admitted state INCLUDING pairs without counts, where both '
+    'sides of `c <= tolerance` are 0 (sign of a polynomial whose coefficients all have one sign; a strict comparison or the '
+    'opposite direction is a violation, an undecided sign is incomplete); (D5.result.sanity-assert) a sanity assertion behind the '
+    'iteration sums the returned T along its rows (the axis the normalisation made stochastic) / pi over all entries and compares '
+    'with 1; (D4.dispatch.dense-path) every condition that controls the call of the compiled estimator in _prinz_mle is a test of '
+    'the container class of its parameter that holds for a dense ndarray. Optimality against every '
     'reversible competitor is not decided.')
 
 REFERENCE = {
@@ -251,6 +258,7 @@ def _show(t, n=160):
 _COND_SYMS = {}
 _COND_NEG = {}
 _COND_BASE = {}         # ('T', text) -> ('Z', text of the same difference): e == 0 implies |e| <= tolerance
+_COND_EXPR = {}         # ('P'|'Z', text) -> the sympy expression e of the atom `e > 0` / `e == 0`
 
 
 def _feasible(on, off=()):
@@ -424,6 +432,8 @@ class _Exec:
         self.where = {}
         self.stored = []
         self.asserts = []
+        self.assert_sites = []      # (condition tree, Assert statement, number of enclosing `if`s, likelihood phase?)
+        self.depth = 0
         self.phase1 = None          # cells after the update, before the likelihood term
         self.scalars1 = None
         self.cond_site = {}         # atomic condition -> the first `if` whose test made it
@@ -578,6 +588,7 @@ class _Exec:
             else:
                 txt = str(e)
             _COND_SYMS[(kind, txt)] = frozenset(x.name for x in e.free_symbols)
+            _COND_EXPR[(kind, txt)] = e
             _COND_NEG[txt] = str(sp.expand(-e))
             return _Ite((kind, txt), pos, not pos)
         if op is ast.Lt:
@@ -659,7 +670,9 @@ class _Exec:
             self.store(s.target, self.ev(b), s)
             return
         if isinstance(s, ast.Assert):
-            self.asserts.append(self.cond(s.test))
+            t = self.cond(s.test)
+            self.asserts.append(t)
+            self.assert_sites.append((t, s, self.depth, self.phase1 is not None))
             return
         if isinstance(s, ast.If):
             c = self.cond(s.test)
@@ -669,10 +682,12 @@ class _Exec:
                 self.run(s.body if c else s.orelse)
                 return
             base = (dict(self.env), dict(self.where), list(self.stored), list(self.asserts))
+            self.depth += 1
             self.run(s.body)
             t_env, t_where, t_stored, t_as = self.env, self.where, self.stored, self.asserts
             self.env, self.where, self.stored, self.asserts = dict(base[0]), dict(base[1]), list(base[2]), list(base[3])
             self.run(s.orelse)
+            self.depth -= 1
             self.asserts = list(base[3])       # assertions under a branch are not recorded
             for k in set(t_env) | set(self.env):
                 a = t_env[k] if k in t_env else self.sym(self.initial(k))
@@ -1239,13 +1254,119 @@ def sweep_model(ck, r):
                 _root_cancellation(ck, r, L, ex)
             except (AnalysisIncomplete, AttributeError, KeyError, IndexError, TypeError, ValueError, RecursionError) as e:
                 ck.missing('C12.D3.root.no-cancellation', '%s: new value of the pair not analysable (%r)' % (impl, e))
-        # assertions inside the update (informational: `assert c <= 0` is not decided)
+        # assertions inside the update: compared between the siblings (informational) and each decided on its own
         model['_asserts.%s' % tag] = sorted(_show(a, 400) for a in ex.asserts)
+        try:
+            _sweep_asserts(ck, r, tag, ex)
+        except (AnalysisIncomplete, AttributeError, KeyError, IndexError, TypeError, ValueError, RecursionError) as e:
+            ck.missing('C12.D1.sweep-assert-implied', '%s: assertion inside the %s update not analysable (%r)' % (impl, tag, e))
         # the likelihood term and its guard
         acc = ex.env.get('logl')
         model['%s.logl' % tag] = acc
         _log_guard(ck, r, tag, L, ex, acc)
     return model
+
+
+# Invariants of the sweep in exact arithmetic, when the body of an update starts (admitted input: non-negative
+# counts, every state has counts): the counts and the cells of X are >= 0, and a row sum is the cell of the pair plus
+# a non-negative remainder (the other cells of the row).  Written as substitutions into non-negative indeterminates.
+_NONNEG_SUBST = {
+    'pair': {'X_rs[i]': ('X[i,j]', "rest(X_rs[i])"), 'X_rs[j]': ('X[i,j]', "rest(X_rs[j])"),
+             'C_rs[i]': ('C[i,j]', "rest(C_rs[i])"), 'C_rs[j]': ('C[j,i]', "rest(C_rs[j])")},
+    'diag': {'X_rs[i]': ('X[i,i]', "rest(X_rs[i])"), 'C_rs[i]': ('C[i,i]', "rest(C_rs[i])")},
+}
+# the indeterminates that vanish TOGETHER for an admitted input: a pair without counts in either direction
+# (X[i,j] = C[i,j] + C[j,i] = 0 at the first sweep), a state without self-counts
+_ZERO_POINT = {'pair': ('C[i,j]', 'C[j,i]', 'X[i,j]'), 'diag': ('C[i,i]', 'X[i,i]')}
+_ZERO_WHAT = {'pair': 'a pair of states without counts in either direction (C[i,j] = C[j,i] = 0, hence X[i,j] = 0)',
+              'diag': 'a state without self-counts (C[i,i] = 0, hence X[i,i] = 0)'}
+
+
+def _sign_of(e, tag):
+    """Sign of the polynomial e on the admitted states of the sweep: -> (kind, e at the zero point) with kind
+    'pos' (> 0 everywhere), 'nonneg' (>= 0 everywhere, > 0 where every indeterminate is positive), 'nonpos',
+    'neg', 'zero', or None (sign not established: mixed coefficients, not a polynomial, foreign operands)."""
+    sp = _sp()
+    subst = _NONNEG_SUBST[tag]
+    allowed = set(subst) | {cell for cell, _ in subst.values()} | set(_ZERO_POINT[tag])
+    if any(x.name not in allowed for x in e.free_symbols):
+        return None
+    sym = lambda t: sp.Symbol(t, real=True)
+    e2 = sp.expand(e.xreplace({sym(k): sym(cell) + sym(rest) for k, (cell, rest) in subst.items()}))
+    if e2 == 0:
+        return 'zero', e2
+    gens = sorted(e2.free_symbols, key=str)
+    if gens:
+        if not e2.is_polynomial(*gens):
+            return None
+        poly = sp.Poly(e2, *gens)
+        coeffs, const = poly.coeffs(), poly.coeff_monomial(1)
+    else:
+        coeffs, const = [e2], e2
+    if any(not (c.is_number and c.is_real) for c in coeffs):
+        return None
+    at_zero = sp.expand(e2.xreplace({sym(k): 0 for k in _ZERO_POINT[tag]}))
+    if all(c > 0 for c in coeffs):
+        return ('pos' if const > 0 else 'nonneg'), at_zero
+    if all(c < 0 for c in coeffs):
+        return ('neg' if const < 0 else 'nonpos'), at_zero
+    return None
+
+
+def _sweep_asserts(ck, r, tag, ex):
+    """Every assertion inside an update body is implied by the invariants of the sweep (in exact arithmetic; the
+    rounding of the running sums is C12.D1.no-zero-tolerance-sign-assert / running-sum-rederived), for EVERY
+    admitted state including pairs without counts.  Necessary for "terminates with a model rather than an internal
+    assertion failure".  The asserted comparison is read off the symbolic execution as the sign of a polynomial in the
+    cells; after writing each row sum as `cell + remainder` all indeterminates are non-negative, so a polynomial
+    whose coefficients all have one sign has that sign everywhere.  Three-valued: implied -> ok; the opposite sign is
+    established, or a STRICT comparison whose two sides both vanish for a pair without counts -> violation; no sign
+    established -> not decided."""
+    rule = 'C12.D1.sweep-assert-implied'
+    mod, F, impl = r.mod, r.fn.name, r.impl
+
+    def holds(t):
+        """'ok' | ('bad', why) | None"""
+        if isinstance(t, bool):
+            return 'ok' if t else ('bad', 'the asserted condition is constantly false')
+        if not isinstance(t, _Ite):
+            return None
+        e = _COND_EXPR.get(t.c) if t.c[0] == 'P' else None
+        sg = _sign_of(e, tag) if e is not None else None
+        a, b = holds(t.a), holds(t.b)
+        if a == 'ok' and b == 'ok':
+            return 'ok'
+        if sg is None:
+            return None
+        kind, at_zero = sg
+        if kind == 'pos':
+            return a
+        if kind in ('nonpos', 'neg', 'zero'):
+            return b
+        # kind == 'nonneg': e > 0 where every indeterminate is positive, e >= 0 everywhere
+        if isinstance(b, tuple) and at_zero == 0 and a == 'ok':
+            return ('bad', 'the comparison is strict, but for %s both sides are exactly 0 (every term of their difference carries one of '
+                           'these factors), so it is False there' % _ZERO_WHAT[tag])
+        if isinstance(a, tuple) and b == 'ok':
+            return ('bad', 'the difference of its two sides has the opposite sign whenever the counts and the cells of X involved are '
+                           'positive (all coefficients of one sign after writing each row sum as cell + non-negative remainder)')
+        if isinstance(a, tuple) and isinstance(b, tuple):
+            return a
+        return None
+    for t, stmt, depth, late in ex.assert_sites:
+        construct = '%s: %s' % (impl, u(stmt)[:140])
+        v = holds(t)
+        if v == 'ok':
+            ck.ok(rule, mod, stmt, construct, 'implied by the invariants of the sweep (non-negative counts and cells, row sum = cell + '
+                  'non-negative remainder), also for pairs without counts')
+        elif isinstance(v, tuple) and depth == 0 and not late and _closed(t):
+            ck.bad(rule, mod, stmt, F, construct,
+                   '%s: the assertion inside the %s update fails for admitted count matrices: %s. The estimator then ends in an internal '
+                   'AssertionError instead of a model (the reference asserts c <= tolerance with a NON-strict comparison: c and the '
+                   'tolerance are both 0 for a pair without counts)' % (impl, tag, v[1]))
+        else:
+            ck.missing(rule, '%s: `%s` inside the %s update: not decided whether it holds for every admitted state%s' % (
+                impl, u(stmt)[:80], tag, ' (under a branch / after the update)' if depth or late else ''))
 
 
 def _sign_known_nonneg(t, on, off):
@@ -1822,12 +1943,17 @@ def d5_result(ck, r):
             for n in ns:
                 forms += ['%s / %s.reshape(%s, 1)' % (X, rs, n), '%s / %s.reshape((%s, 1))' % (X, rs, n)]
         v = classify(te, forms, scope=set(r.states))
+        t_rows = v[0] == 'match'
         ck.decide(v, rule, mod, _def_stmt(fi, ret.value.elts[0]) or ret, F, 'T = %s' % fi.xu(ret.value.elts[0], stop=r.states)[:150], 'T = X / rowsum(X) (column-vector broadcast)',
                   '%s: T must be X divided by its row sums shaped (n, 1)' % impl)
         forms = ['%s / %s.sum()' % (R, R), '%s / %s.sum()[..., None]' % (R, R), '%s / %s.sum(axis=0)' % (R, R)]
         v = classify(pe, forms, scope=set(r.states))
         ck.decide(v, rule, mod, _def_stmt(fi, ret.value.elts[1]) or ret, F, 'pi = %s' % fi.xu(ret.value.elts[1], stop=r.states)[:150],
                   'pi = rowsum(X) / sum(X)', '%s: pi must be X_rs / X_rs.sum()' % impl)
+        try:
+            _d5_sanity_asserts(ck, r, ret, t_rows)
+        except (AnalysisIncomplete, AttributeError, KeyError, IndexError, TypeError, ValueError, RecursionError) as e:
+            ck.missing('C12.D5.result.sanity-assert', '%s: assertions behind the iteration not analysable (%r)' % (impl, e))
     # initialisation: the definitions that reach the iteration loop
     for nm, forms, sc, ok_txt, bad_txt in (
             (X, ['%s + %s.T' % (Cn, Cn), '%s.T + %s' % (Cn, Cn), '%s + %s.transpose()' % (Cn, Cn), '%s.transpose() + %s' % (Cn, Cn)],
@@ -1870,6 +1996,87 @@ def d5_result(ck, r):
             continue
         ck.check(len(pos) >= 1, rule + '.precondition', mod, pos[0] if pos else fn, F, 'assert np.all(%s > 0)' % nm,
                  'every state has counts (precondition after trimming)', 'the estimator must reject states without counts')
+
+
+def _d5_sanity_asserts(ck, r, ret, t_rows):
+    """The sanity assertions between the iteration and `return T, pi` are implied by the result formulas
+    (C12.D5.result: T = X / rowsum(X)[:, None], pi = X_rs / X_rs.sum()): a reduction of T inside such an assertion
+    runs along the axis the normalisation made stochastic (the ROWS: axis 1 / -1) and is compared with 1.  The
+    column sums of a row-stochastic matrix are 1 only for doubly stochastic T, so an assertion on them fails for
+    almost every admitted input (internal AssertionError instead of a model).  Located by role: `A.sum(...)` with A
+    the returned T / pi inside an `assert` that the iteration dominates."""
+    import copy
+    rule = 'C12.D5.result.sanity-assert'
+    mod, fn, fi, impl = r.mod, r.fn, r.fi, r.impl
+    F = fn.name
+    te, pe = ret.value.elts
+    Tn, pn = (e.id if isinstance(e, ast.Name) else None for e in (te, pe))
+    post = [s for s in walk_local(fn) if isinstance(s, ast.Assert) and fi.cfg.dominates(r.loop, s) and not _inside(mod, s, r.loop)
+            and fi.cfg.reachable(s, ret)]
+    roles = {Tn: 'T', pn: 'pi'}
+    roles.pop(None, None)
+    watched = set(roles) | set(r.states)
+    for s in post:
+        construct = '%s: %s' % (impl, u(s)[:140])
+        try:
+            test = fi.expand(s.test, strict=False, stop=tuple(sorted(watched)))
+        except Exception:
+            test = s.test
+        test = _Neg().visit(copy.deepcopy(test))
+        names = {n.id for n in ast.walk(test) if isinstance(n, ast.Name)}
+        if not names & watched:
+            continue            # about something else (argument validation, the iteration counter)
+        parent = {}
+        for n in ast.walk(test):
+            for ch in ast.iter_child_nodes(n):
+                parent[ch] = n
+        reds = [n for n in ast.walk(test) if isinstance(n, ast.Call) and isinstance(n.func, ast.Attribute) and n.func.attr == 'sum'
+                and isinstance(n.func.value, ast.Name) and n.func.value.id in roles and not n.args]
+        used = {n.id for n in ast.walk(test) if isinstance(n, ast.Name) and n.id in watched}
+        covered = {n.func.value.id for n in reds}
+        if not reds or used - covered:
+            ck.missing(rule, '%s: `%s` behind the iteration is not a test of a sum of the returned T / pi: not decided whether the '
+                             'result formulas imply it' % (impl, u(s)[:80]))
+            continue
+        for red in reds:
+            what = roles[red.func.value.id]
+            ax = kwarg(red, 'axis')
+            axv = const_value(ax) if ax is not None else None
+            if any(k.arg not in ('axis',) for k in red.keywords) or (ax is not None and (isinstance(axv, bool) or not isinstance(axv, int))):
+                ck.missing(rule, '%s: reduction `%s` in a sanity assertion: axis not a literal' % (impl, u(red)[:60]))
+                continue
+            # what the sum is compared with
+            P = parent.get(red)
+            other = None
+            if isinstance(P, ast.Call) and (call_name(P) or '').split('.')[-1] in ('allclose', 'isclose') and len(P.args) >= 2 and red in P.args[:2]:
+                other = P.args[1] if P.args[0] is red else P.args[0]
+            elif isinstance(P, ast.BinOp) and isinstance(P.op, ast.Sub):
+                other = P.right if P.left is red else P.left
+            elif isinstance(P, ast.Compare) and len(P.ops) == 1:
+                other = P.comparators[0] if P.left is red else P.left
+            ov = const_value(other) if other is not None else None
+            if what == 'T':
+                if axv in (0, -2) and not t_rows:
+                    ck.missing(rule, '%s: `%s` sums T along the columns and T was not recognised as X / rowsum(X): not decided' % (impl, u(s)[:80]))
+                    continue
+                if axv in (0, -2):
+                    ck.bad(rule, mod, s, F, '%s: axis of the sanity assertion on T' % impl,
+                           '%s: `%s` sums T along axis %d, i.e. it asserts that the COLUMN sums of T are 1. T = X / rowsum(X)[:, None] is '
+                           'row-stochastic: its rows sum to 1, its columns only for doubly stochastic T (uniform stationary distribution). '
+                           'For every other admitted count matrix the assertion fails and the estimator ends in an internal AssertionError '
+                           'instead of returning the model' % (impl, u(s)[:80], axv))
+                    continue
+                if axv not in (1, -1):
+                    ck.missing(rule, '%s: `%s` reduces T over all axes: not decided' % (impl, u(red)[:60]))
+                    continue
+            elif axv not in (None, 0, -1):
+                ck.missing(rule, '%s: `%s`: axis of a reduction of the 1-D pi not decided' % (impl, u(red)[:60]))
+                continue
+            if isinstance(ov, bool) or not isinstance(ov, (int, float)) or ov != 1:
+                ck.missing(rule, '%s: `%s`: the value the sum of %s is compared with is not the literal 1: not decided' % (impl, u(s)[:80], what))
+                continue
+            ck.ok(rule, mod, s, construct, 'the rows of T sum to 1 by T = X / rowsum(X)' if what == 'T' else
+                  'pi sums to 1 by pi = X_rs / X_rs.sum()')
 
 
 _TOLERANCE_TESTS = ('np.allclose', 'np.isclose', 'math.isclose', 'numpy.allclose', 'numpy.isclose', 'isclose', 'allclose')
@@ -2280,6 +2487,93 @@ def d4_dispatch(ck, mp):
             v = ('far',)
     ck.decide(v, rule, mp, c, '_prinz_mle', u(c), 'dense input goes to the compiled estimator',
               '_prinz_mle must call _mle_prinz_dense(C, ...) with its own count matrix')
+    _dispatch_dense_path(ck, mp, fd, fi, c, P)
+
+
+def _dense_atom(ck, mod, node, operand):
+    """Truth value of an atomic test of the container class of `operand` for a
+    dense numpy.ndarray (the only container the dispatcher is handed after the
+    densification in `mle`): True / False; None if `node` is no such test or
+    the class is not in the table."""
+    if not isinstance(node, ast.Call) or node.keywords or not node.args or u(node.args[0]) != operand:
+        return None
+    q = _qualified(ck, mod, call_name(node))
+    last = q.split('.')[-1]
+    if q.startswith('scipy.sparse') and len(node.args) == 1:
+        if last in ('issparse', 'isspmatrix') or re.match(r'^isspmatrix_(%s)$' % '|'.join(_FORMATS), last):
+            return False
+        return None
+    if q == 'isinstance' and len(node.args) == 2:
+        cls = node.args[1].elts if isinstance(node.args[1], (ast.Tuple, ast.List)) else [node.args[1]]
+        vals = []
+        for cnode in cls:
+            cq = _qualified(ck, mod, u(cnode))
+            if cq.split('.')[0] in ('np', 'numpy') and cq.split('.')[-1] == 'ndarray':
+                vals.append(True)
+            elif _class_kinds(cq) is not None and cq.startswith('scipy.sparse'):
+                vals.append(False)
+            else:
+                vals.append(None)
+        return _or3(vals)
+    if q == 'hasattr' and len(node.args) == 2 and const_value(node.args[1]) in ('toarray', 'todense', 'tocsr', 'tocoo', 'nnz'):
+        return False
+    return None
+
+
+def _dispatch_dense_path(ck, mp, fd, fi, c, P):
+    """The call of the compiled estimator is EVALUATED for a dense matrix: the
+    conditions that control it (enclosing `if`s, earlier guard clauses that
+    leave the function) are tests of the container class of the parameter and
+    hold for a numpy.ndarray.  Necessary for "terminates with a model rather
+    than an internal assertion failure" at the observation point
+    `_prinz_mle(C)` and for the agreement of the two implementations there: a
+    dispatcher whose dense arm is the `assert False` / raise arm returns no
+    model for any admitted input.  Three-valued over the syntactic tests:
+    a recognised container test that is False for an ndarray -> violation;
+    a test of something else -> not decided."""
+    rule = 'C12.D4.dispatch.dense-path'
+    tests = _controlling_tests(mp, c, fd)
+    if tests is None:
+        ck.missing(rule, '_prinz_mle: the call of the compiled estimator sits in a loop / try / with: the conditions under '
+                         'which it is evaluated are not modelled')
+        return
+    vals, blame = [], None
+    for t, pol, owner in tests:
+        try:
+            te = t if not isinstance(t, ast.Name) else (fi.temp_value(t) or t)
+        except Exception:
+            te = t
+
+        def atom(x):
+            val = _dense_atom(ck, mp, x, P)
+            if val is None:
+                return None
+            nm = x.args[0]
+            # the tested value is the caller's matrix
+            if not isinstance(nm, ast.Name) or set(fi.defs_of_use(nm)) != {'PARAM'}:
+                return None
+            return lambda k, _v=val: _v
+        val = _tv(te, None, atom)
+        val = val if pol or val is None else (not val)
+        vals.append(val)
+        if val is False and blame is None:
+            blame = (t, pol, owner)
+    verdict = _and3(vals) if vals else True
+    if verdict is True:
+        ck.ok(rule, mp, c, '_prinz_mle: %s' % (' and '.join(('%s' if pol else 'not (%s)') % u(t)[:60] for t, pol, _ in tests) or 'unconditional'),
+              'for a dense ndarray every condition that controls the call of the compiled estimator holds')
+    elif verdict is False:
+        t, pol, owner = blame
+        shown = ('%s' if pol else 'not (%s)') % u(t)[:80]
+        ck.bad(rule, mp, owner if isinstance(owner, ast.stmt) else c, '_prinz_mle', '_prinz_mle: condition of the dense path',
+               '_prinz_mle calls the compiled estimator only when `%s`, which is False for a dense numpy.ndarray: every admitted '
+               'count matrix (mle densifies sparse input beforehand) takes the other arm - the `assert False` / fall-through of '
+               'the unimplemented sparse case - so _prinz_mle(C) ends in an internal AssertionError (or returns None) instead of a '
+               'model, while _prinz_mle_py(C) returns the MLE: the two implementations no longer agree on any matrix' % shown)
+    else:
+        k = vals.index(None)
+        ck.missing(rule, '_prinz_mle: whether `%s` holds for a dense ndarray is not decided (not a test of the container class of '
+                         'the parameter)' % (('%s' if tests[k][1] else 'not (%s)') % u(tests[k][0])[:80]))
 
 
 # ---------------------------------------------------------------------------
